@@ -216,6 +216,71 @@ def main(argv: List[str]) -> int:
                 )
                 break
 
+    # ------------------------------------------------------------------ 3b. ints that are not plain ints (bool, IntEnum member, int subclass): still ints, same verdict at both entry points
+    import enum as _enum
+
+    class _LineNo(int):
+        pass
+
+    _E = _enum.IntEnum("_E", {"A": 1})
+    odd_ints = [("True", True), ("False", False), ("IntEnum member 1", _E.A), ("int subclass 5", _LineNo(5))]
+    for cls, aname, want, optional, d, p in sites:
+        base_json = mm.witness_props(d.props, False, 0)
+        try:
+            base_obj = conv.structure(base_json, cls)
+        except Exception:
+            continue
+        for label, v in odd_ints:
+            entry_evals += 1
+            try:
+                live.attrs.evolve(base_obj, **{aname.lstrip("_"): v})
+                ctor = True
+            except Exception:
+                ctor = False
+            j = dict(base_json)
+            j[p["name"]] = v
+            try:
+                conv.structure(j, cls)
+                parse = True
+            except Exception:
+                parse = False
+            if not (ctor and parse):
+                run.violation(f"entry:{cls.__name__}.{aname}:int-subtype", f"{cls.__name__}.{aname} ({want}) value {label} (an int in range): constructor {'accepts' if ctor else 'rejects'}, converter {'accepts' if parse else 'rejects'}", {"class": cls.__name__, "attribute": aname, "value": label, "constructor_accepts": ctor, "converter_accepts": parse, "expected_accept": True}, True)
+                break
+    # ------------------------------------------------------------------ 3c. the same range at integer properties of objects that are reached through a union-typed property
+    from lib.sweeps import union_nested_sites
+    from oracle.pairing import all_class_decls as _acd
+
+    nested_evals = 0
+    nested_bad = 0
+    for d in _acd(mm):
+        cls = getattr(live.types, d.pyname, None)
+        if cls is None or nested_bad >= 5:
+            continue
+        host = mm.witness_props(d.props, False, 0)
+        for p in d.props:
+            for alt, nprops, place in union_nested_sites(mm, p["type"]):
+                for q in nprops:
+                    qt = q["type"]
+                    if not (qt["kind"] == "base" and qt["name"] in ("integer", "uinteger")):
+                        continue
+                    lo, hi = (INT_MIN, INT_MAX) if qt["name"] == "integer" else (UINT_MIN, UINT_MAX)
+                    nested = mm.witness_props(nprops, False, 0)
+                    for v in (lo - 1, hi + 1, lo, hi):
+                        nested_evals += 1
+                        nj = dict(nested)
+                        nj[q["name"]] = v
+                        j = dict(host)
+                        j[p["name"]] = place(nj)
+                        try:
+                            conv.structure(j, cls)
+                            accepted = True
+                        except Exception:
+                            accepted = False
+                        if accepted != (lo <= v <= hi):
+                            nested_bad += 1
+                            run.violation(f"entry:{d.pyname}.{p['name']}:nested:{q['name']}", f"{d.pyname}.{p['name']} holds (through a union) an object whose {qt['name']} property {q['name']} is {v}: the converter {'accepts' if accepted else 'rejects'} it", {"class": d.pyname, "property": p["name"], "nested_property": q["name"], "value": v, "json": j, "converter_accepts": accepted}, True)
+                            break
     run.assume(
         "Python ints are unbounded: integer arithmetic in the VCs is mathematical and exact",
         "bool is a subtype of int (encoded); instances of other int subclasses behave as ints",
@@ -236,6 +301,7 @@ def main(argv: List[str]) -> int:
             "encoder_vs_cpython_inputs": diff_n,
             "bounded_native_validator_calls": bounded_evals,
             "bounded_entry_point_probes": entry_evals,
+            "nested_through_union_probes": nested_evals,
             "samples": stats.samples[:6] + [{"site": f"{c.__name__}.{a}", "type": w} for c, a, w, *_ in sites[:5]],
             "notes": run.notes,
         }
